@@ -205,3 +205,38 @@ CHECKS["C08"] = {
                   "round, with the captured residual equal to w_i*delta_i + w_j*delta_j on exactly that coordinate.",
     "level_note": "Held on the executed runs; an attacker model limited to d1 defects. Trusted: FmPoint MSM log.",
 }
+
+CHECKS["C09"] = {
+    "title": "Mask recovery returns the commitment's exact mask, position by position",
+    "level": "exploration",
+    "technique": "runtime monitoring: recovered masks compared component-by-component with the harness's own blinding vectors (pairwise distinct components), all modes, all bit lengths x degrees, fault-injected prover RNGs; batch slot-alignment monitor up to 600 members; independent re-implementation of the documented recovery as second oracle",
+    "design_ref": "DESIGN.md section 4 C09",
+    "legs": [{"name": "fm", "shards": 16}, {"name": "ris", "shards": 16}],
+    "rule": "single cases: (bit length, extension degree 1..6, capacity, value class, promise class, context, prover-RNG model) x verify mode, with random pairwise-distinct blinding components; "
+            "batch cases: random arrangements of seeded, unseeded and aggregated members (sizes 3..600) x mode; non-trivial = verify_batch returned and every slot/component was compared; "
+            "distinct = distinct (group, instance, RNG model, mode) or (batch, size, mode)",
+    "require": {"quick": {"recoveries": 3000, "mask_components_compared": 5000, "batch_recoveries": 200, "batch_slots_compared": 8000, "reference_recoveries": 500},
+                "thorough": {"recoveries": 15000, "mask_components_compared": 25000, "batch_recoveries": 2000, "batch_slots_compared": 200000, "reference_recoveries": 2500}},
+    "assumptions": COMMON_ASSUMPTIONS,
+    "level_text": "Proves under a seed and recovers with the same seed, for every bit length and every extension degree with pairwise distinct blinding components, under seven prover-RNG "
+                  "fault models: both recovering modes must return exactly the blinding vector, component by component and in order; verify-only, unseeded and aggregated members must yield None; "
+                  "in batches (up to 600 members, mixed composition) slot i must hold member i's mask. The documented recovery formula, implemented independently, must agree.",
+    "level_note": "Held on the executed recoveries. Trusted: harness bookkeeping of blinding vectors, refbp nonce derivation.",
+}
+
+CHECKS["C10"] = {
+    "title": "Mask recovery is keyed by the seed and never changes the verdict",
+    "level": "exploration",
+    "technique": "runtime monitoring: wrong-seed recovery oracle incl. structured single-byte seed differences; verdict-invariance oracle across {no, right, wrong seed} x modes on valid and systematically altered proofs; RecoverOnly vs RecoverAndVerify agreement",
+    "design_ref": "DESIGN.md section 4 C10",
+    "legs": [{"name": "fm", "shards": 16}, {"name": "ris", "shards": 16}],
+    "rule": "wrong-seed cases: (instance, wrong seed in {seed+1, random, negated, single byte i differs}) x recovering mode; verdict cases: (instance, input in {honest, every single-element alteration}) "
+            "evaluated under 3 seed settings x 2 verifying modes (6 verdicts must agree) plus RecoverOnly; non-trivial = all verdicts were obtained; distinct = distinct (group, instance, seed variant / input)",
+    "require": {"quick": {"wrong_seed_recoveries": 2000, "verdicts_compared": 20000, "accepted_inputs": 100, "rejected_inputs": 3000, "recover_only_vs_recover_and_verify": 100},
+                "thorough": {"wrong_seed_recoveries": 20000, "verdicts_compared": 200000, "accepted_inputs": 1000, "rejected_inputs": 30000, "recover_only_vs_recover_and_verify": 1000}},
+    "assumptions": COMMON_ASSUMPTIONS + ["a wrong seed recovering the true mask by chance has probability 2^-252 per component"],
+    "level_text": "For seeded single-commitment proofs over all bit lengths and degrees: recovery with any different seed (including seeds differing in one byte position only, e.g. the top byte) "
+                  "returns Ok with a mask that shares no component with the true one; the accept/reject verdict of honest and of every singly-altered proof is identical with no seed, the right "
+                  "seed and a wrong seed, in VerifyOnly and RecoverAndVerify; RecoverOnly returns what RecoverAndVerify returns on accepted inputs.",
+    "level_note": "Held on the executed runs. Trusted: harness mutation generator.",
+}
